@@ -349,3 +349,42 @@ vnacal_new_parameter_t *_vnacal_new_get_parameter(const char *function,
 
     return vnprp;
 }
+
+#ifdef LIBVNA_VERIF
+/*
+ * _vnacal_new_verif_hash_dump: verification hook (compiled only with
+ *	-DLIBVNA_VERIF): write the parameter indices of the chains of the
+ *	parameter hash of a vnacal_new_t, each chain terminated by -1
+ *   @vnp: pointer to vnacal_new_t structure
+ *   @allocation: address to receive the number of chains
+ *   @buffer: address of vector to receive the indices
+ *   @size: number of ints buffer can hold
+ *
+ * Return:
+ *   number of ints the dump needs (the buffer is filled up to size)
+ */
+int _vnacal_new_verif_hash_dump(const vnacal_new_t *vnp, int *allocation,
+	int *buffer, int size)
+{
+    const vnacal_new_parameter_hash_t *vnphp = &vnp->vn_parameter_hash;
+    int n = 0;
+
+    *allocation = vnphp->vnph_allocation;
+    for (int chain = 0; chain < vnphp->vnph_allocation; ++chain) {
+	const vnacal_new_parameter_t *vnprp;
+
+	for (vnprp = vnphp->vnph_table[chain]; vnprp != NULL;
+		vnprp = vnprp->vnpr_hash_next) {
+	    if (n < size) {
+		buffer[n] = VNACAL_GET_PARAMETER_INDEX(vnprp->vnpr_parameter);
+	    }
+	    ++n;
+	}
+	if (n < size) {
+	    buffer[n] = -1;
+	}
+	++n;
+    }
+    return n;
+}
+#endif /* LIBVNA_VERIF */
